@@ -208,6 +208,33 @@ def r2(prog, rep):
                    "found %s ; expected %s" % (v.show(200), w.reduced().show(200)), key="dct/" + m)
         except AlgError as e:
             rep.ob("R2", "DCT_2D.%s summand extractable" % m, False, DCT, str(e), key="dct/" + m)
+    # evaluating the interpolant must not change it: no evaluation method (nor a function nested
+    # in it) stores to an attribute of self or modifies in place an object reached from self
+    # (`c = self.psiDCT; c *= k` rescales the stored coefficients for every later call)
+    from ..effects import param_mutations
+    mod_ = prog.module(DCT)
+    npure = 0
+    for m in ("__call__", "ddR", "ddZ", "d2dR2", "d2dZ2", "d2dRdZ"):
+        fm = mod_.funcs.get("DCT_2D." + m)
+        if fm is None:
+            raise AnalysisError("DCT_2D.%s not found" % m)
+        bad = []
+        for fn in [fm.node] + [n for n in ast.walk(fm.node) if isinstance(n, (ast.FunctionDef, ast.Lambda)) and n is not fm.node and isinstance(n, ast.FunctionDef)]:
+            for node, who, kind in param_mutations(fn, mod_, extra_owned=("self",)):
+                if who == "self" or who not in [a.arg for a in fn.args.args]:
+                    bad.append((node, who, kind))
+            for n in walk_own(fn):
+                if isinstance(n, (ast.Assign, ast.AugAssign)):
+                    for t in (n.targets if isinstance(n, ast.Assign) else [n.target]):
+                        b = t
+                        while isinstance(b, (ast.Attribute, ast.Subscript)):
+                            b = b.value
+                        if isinstance(t, (ast.Attribute, ast.Subscript)) and isinstance(b, ast.Name) and b.id == "self" and (n, "self", "store") not in [(x[0], x[1], "store") for x in bad]:
+                            bad.append((n, "self", "store to the interpolant's own state"))
+        npure += 1
+        rep.ob("R2", "DCT_2D.%s does not modify the interpolant (no store to self, no in-place change of an object reached from self)" % m, not bad,
+               fm.site(bad[0][0]) if bad else fm.site(), "; ".join("%s: %s" % (mod_.code(n_)[:60], k) for n_, w, k in bad[:3]), key="dct/pure/" + m)
+    rep.floor("R2.pure-methods", npure, 6)
     # normalisation in __init__
     mod = prog.module(DCT)
     init = mod.funcs.get("DCT_2D.__init__")
